@@ -18,7 +18,7 @@ use std::cell::RefCell;
 use std::process::Command;
 
 pub fn handles(id: &str) -> bool {
-    matches!(id, "C04" | "C06" | "C11" | "C15" | "C16" | "C17" | "C18" | "C20")
+    matches!(id, "C04" | "C06" | "C10" | "C11" | "C15" | "C16" | "C17" | "C18" | "C20")
 }
 
 pub fn rule(id: &str) -> String {
@@ -151,6 +151,7 @@ pub fn run(cfg: &RunCfg, stats: &mut Stats, exhaustive: &mut bool, extra: &mut V
     match cfg.id.as_str() {
         "C04" => run_c04(cfg, stats),
         "C06" => run_walks(cfg, stats, 1),
+        "C10" => run_c10_parsed(cfg, stats),
         "C11" => match run_c11_static(cfg, stats) {
             Outcome::Pass => run_walks(cfg, stats, 1),
             other => other,
@@ -168,12 +169,14 @@ pub fn replay(id: &str, v: &Value) -> Result<Option<Fail>, String> {
     let mut st = Stats::default();
     match (id, v["kind"].as_str().unwrap_or("")) {
         ("C15", "text") => Ok(c15_text_check(v["text"].as_str().ok_or("text")?, &mut st).err()),
+        ("C10", "parsed_text") => Ok(c10_parsed_text(v["text"].as_str().ok_or("text")?, &mut st).err()),
         ("C15", "valid_diagram") => match crate::drive::start_from_json(&v["start"])? {
             gen::Start::Pos(p) => Ok(c15_valid_diagram(&p, &mut st).err()),
             _ => Err("bad start".into()),
         },
         ("C16", "string") => Ok(c16_string(v["text"].as_str().ok_or("text")?, &mut st).err()),
         ("C16", "values") => Ok(c16_values(&mut st).err()),
+        ("C16", "boundary_lengths") => Ok(c16_boundary_lengths(&mut st).err().map(|x| x.0)),
         ("C16", "bitboard") => Ok(c16_bitboard(v["bits"].as_u64().ok_or("bits")?, &mut st).err()),
         ("C04", "position") => {
             let start = crate::drive::start_from_json(&v["start"])?;
@@ -531,6 +534,56 @@ fn run_walks(cfg: &RunCfg, stats: &mut Stats, stride: usize) -> Outcome {
     Outcome::Pass
 }
 
+
+// =====================================================================================
+// C10 on states the parser returns for near-diagram texts (every state the public API hands out is
+// "reachable" in the sense of C10: its views must describe one position)
+// =====================================================================================
+
+pub fn c10_parsed_text(text: &str, st: &mut Stats) -> Check {
+    st.eval();
+    let g = match guard(|| text.parse::<GameState>()) {
+        Ok(Ok(g)) => g,
+        _ => return Ok(()), // rejected or panicked: C15's business
+    };
+    st.bump("parsed/texts_accepted");
+    let b = read_board(g.piece_board()).map_err(|e| Fail::new("C10:raw_boards", format!("the state parsed from a text has inconsistent boards ({}); text: {:?}", e, text.chars().take(400).collect::<String>())))?;
+    crate::props::c10_views(g.piece_board(), &b, "state parsed from text")?;
+    // (no complement clause here: a text may legitimately show any material, the parser does not judge
+    // legality; what must hold is that the views of the state it returns describe one position)
+    st.nontrivial(fp_str(text));
+    Ok(())
+}
+
+fn run_c10_parsed(cfg: &RunCfg, stats: &mut Stats) -> Outcome {
+    for t in golden_c15_texts() {
+        if let Err(f) = c10_parsed_text(&t, stats) {
+            return Outcome::Violation(Violation { replay: text_replay("C10", "parsed_text", &f, &t, cfg.seed, 0), fail: f });
+        }
+    }
+    let cases = if cfg.thorough { 200_000 } else { 20_000 };
+    let seed = cfg.seed;
+    let mut s = Stats::default();
+    let out = sharded(
+        cfg,
+        30,
+        cases,
+        c15_text,
+        |c: &TextCase, st: &mut Stats| c10_parsed_text(&c.text, st),
+        |c, f, shard| text_replay("C10", "parsed_text", f, &c.text, seed, shard),
+        |c| json!({"text": c.text.chars().take(300).collect::<String>()}),
+        &mut s,
+    );
+    let mut pref = Stats::default();
+    pref.evaluations = s.evaluations;
+    pref.nontrivial = s.nontrivial;
+    for (k, v) in s.counters {
+        pref.counters.insert(format!("parsed/{}", k), v);
+    }
+    stats.merge(pref);
+    out
+}
+
 // =====================================================================================
 // C15 text half
 // =====================================================================================
@@ -703,6 +756,10 @@ fn run_c16(cfg: &RunCfg, stats: &mut Stats, exhaustive: &mut bool, extra: &mut V
         }
     }
     stats.add("strings_from_all_unicode_scalars_in_templates", all_chars);
+    if let Err((f, what)) = c16_boundary_lengths(stats) {
+        return Outcome::Violation(Violation { replay: json!({"property": "C16", "kind": "boundary_lengths", "clause": f.clause, "detail": format!("{} [input: {}]", f.detail.chars().take(300).collect::<String>(), what)}), fail: Fail::new(&f.clause, format!("{} [input: {}]", f.detail.chars().take(300).collect::<String>(), what)) });
+    }
+    stats.bump("strings_at_integer_boundary_lengths_checked");
     stats.sample(12, || json!({"exhaustive": "all strings of length <= 4 over the alphabet", "alphabet": ALPHABET.iter().map(|c| c.to_string()).collect::<Vec<_>>()}));
     *exhaustive = true;
     *extra = json!({"exhaustive_part": "263 actions, 64 squares, 6 pieces, 4 directions, 475255 strings (length <= 4 over 26 symbols), every Unicode scalar value alone and at each position of the templates a1n h8w d4s a1 h8 e", "sampled_part": "longer strings, arbitrary Unicode, random u64 bitboards"});
